@@ -202,7 +202,7 @@ fn @name@() {
         if tier == "thorough":
             rows = menu.get((p, L), [])        # the whole menu; rows outside it were not all measured (one exhausted 14 GB)
         else:
-            rows = [r for i, r in enumerate(menu.get((p, L), [])) if (i + seed + L) % 3 == 0]
+            rows = [r for i, r in enumerate(menu.get((p, L), [])) if (i + seed + L) % 3 == 0 and (p == "middle" or (seed + L) % 2 == 0)]
         for k in rows:
             la, lb = k % 3, k // 3
             nm = "c05_set_length_any_%s_%d_row%d" % (p, L, k)
